@@ -22,6 +22,8 @@
    Further commands:
        L <id> <expr>          lowering model (Lower/Ops.v through Lower/Tie.v) on a closed single-operator
                               expression -> R <id> K:<ok|poison|reject|crash|none> <hex of what the code prints>
+       M <id> <fuel> <prog>   compiler model (Lower/StmtCompile.v: compile_stmt + mblock) on a statement-only program of
+                              the scalar fragment -> R <id> <N|L> <hex> | K:outside | K:stuck-or-fuel
        Q <id> <pexpr>         pexpr ::= A <n> | O <op> pexpr pexpr ; the Coq renderer of Lang/Prec.v ->
                               R <id> T:<roundtrip|DIFFERENT|NOPARSE> <tokens: a<n> ( ) o:<op> ist um vL vR>
    libm pow/log10 and the C format "%.16g" are supplied here (same libc as the runtime). *)
@@ -215,6 +217,22 @@ let () =
          | TieReject -> Printf.printf "R %s K:reject -\n" id
          | TieCrash -> Printf.printf "R %s K:crash -\n" id
          | TieNone -> Printf.printf "R %s K:none -\n" id)
+      with e -> Printf.printf "R %s X:%s -\n" id (String.map (fun c -> if c = ' ' then '_' else c) (Printexc.to_string e)))
+    | "M" :: id :: fuel :: rest ->
+      (* the compiler model of Lower/StmtCompile.v on a statement-only program of the scalar fragment *)
+      (try
+        toks := Array.of_list rest; pos := 0;
+        let prog = p_prog () in
+        let stmts = List.filter_map (function TopStmt s -> Some s | TopFunc _ -> None) prog in
+        if List.length stmts <> List.length prog || not (block_ok (fun _ -> None) false stmts)
+        then Printf.printf "R %s K:outside -\n" id
+        else begin
+          let r = mblock pow_oracle log10_oracle fmt_oracle (nat_of_int (int_of_string fuel)) [] init_mstate (List.map compile_stmt stmts) in
+          match m_observe r with
+          | Some (false, o) -> Printf.printf "R %s N %s\n" id (hex_of o)
+          | Some (true, o) -> Printf.printf "R %s L %s\n" id (hex_of o)
+          | None -> Printf.printf "R %s K:stuck-or-fuel -\n" id
+        end
       with e -> Printf.printf "R %s X:%s -\n" id (String.map (fun c -> if c = ' ' then '_' else c) (Printexc.to_string e)))
     | "Q" :: id :: rest ->
       (try
